@@ -366,10 +366,14 @@ func (b *Buffer) grow(n int) {
 	} else {
 		newLen = cap(b.core) * 2
 	}
+	// 注意，扩容一次可能不够，需要确保扩容后的空闲空间足够写入n个字节
+	for newLen-b.Len() < n {
+		newLen *= 2
+	}
 	buf := make([]byte, newLen)
 	Log.Debugf("Buffer::grow. need=%d, old len=%d, cap=%d, new len=%d", n, b.Len(), cap(b.core), newLen)
 	copy(buf, b.core[b.readPos:b.writePos])
 	b.core = buf
-	b.readPos = 0
 	b.writePos = b.writePos - b.readPos
+	b.readPos = 0
 }
